@@ -426,7 +426,8 @@ Inv(p, id) ==
 \* The reorganisation caller panics on the error ("Rollback failed"): the process
 \* is dead, only Recover follows. The checkpoint-mismatch caller logs it and
 \* carries on.
-AllFaultKinds == {0, 1} \cup {20 + j : j \in 1..3} \cup {30 + j : j \in 1..3}
+ReadFaultKinds == {41, 42}      \* of WriteCF, see there
+AllFaultKinds == {0, 1} \cup {20 + j : j \in 1..3} \cup {30 + j : j \in 1..3} \cup ReadFaultKinds
 Headers(p, b, fw) ==
   /\ Tick /\ conn[p]
   /\ fw # 0 => nfaults < MaxFaults
@@ -448,14 +449,23 @@ HeadersCrash(p, b, cb) ==
          /\ down' = TRUE
          /\ Finish(w, Act("Headers", p, b, 10 + cb, "ok"))
 
-WriteCF(k) ==
-  /\ Tick /\ UNCHANGED nfaults
+\* rd = 0: no fault; rd = 40 + j: the j-th read the step makes on the block-header store through
+\* FetchHeader / FetchHeaderAncestors returns an I/O error - IF the step makes a j-th such read.
+\* writeCFHeadersMsg makes ONE (:1423 FetchHeaderAncestors(numHeaders-1, stop hash), BEFORE the write
+\* :1445): rd = 41 -> the function returns the error there: nothing written, tip not published,
+\* nothing announced; rd = 42 -> the fault point is never reached, the step is an ordinary one.
+\* The parameter travels in act.p (no peer takes part in this step).
+WriteCF(k, rd) ==
+  /\ Tick
+  /\ rd # 0 => nfaults < MaxFaults
+  /\ nfaults' = nfaults + (IF rd = 0 THEN 0 ELSE 1)
   /\ LET ft == FTip(W) bt == BTip(W) IN
        /\ ft[1] # ERR /\ bt[1] # ERR /\ ft[2] + k <= bt[2]
        /\ \A j \in 1..k : ReadB(W, ft[2] + j) >= 0
        /\ IdxOf(W, ReadB(W, ft[2] + k)) = ft[2] + k
   /\ UNCHANGED <<ncrashes, down>>
-  /\ Finish(HandleWriteCF(W, k), Act("WriteCF", 0, <<>>, k, "ok"))
+  /\ Finish(IF rd = 41 THEN W ELSE HandleWriteCF(W, k),
+            Act("WriteCF", rd, <<>>, k, IF rd = 41 THEN "err" ELSE "ok"))
 
 \* Restart after a crash: newBlockManager on whatever the stores hold.
 Recover ==
@@ -511,7 +521,7 @@ Restart ==
 \* InitChains (block headers) with filter headers committed for the first fl
 \* of them: what newBlockManager finds after a restart.
 Init ==
-  \E ci \in 1..Len(InitChains) : \E fl \in {1, Len(InitChains[ci])} :
+  \E ci \in 1..Len(InitChains) : \E fl \in (IF InitFullOnly THEN {} ELSE {1}) \cup {Len(InitChains[ci])} :
   LET c == InitChains[ci] IN
   /\ bfile = c
   /\ bidx = [i \in 1..NIds |-> IF \E k \in 1..Len(c) : c[k] = i - 1
@@ -532,9 +542,9 @@ Next ==
         \E nf \in (IF p \in LightPeers /\ sh \in LightStart THEN {0, 1} ELSE {0}) : NewPeer(p, sh, nf)
   \/ \E p \in Peers : DonePeer(p)
   \/ \E p \in Peers : \E id \in InvIds : Inv(p, id)
-  \/ \E p \in Peers : \E k \in 1..Len(Batches) : \E fw \in FaultKinds : Headers(p, Batches[k], fw)
+  \/ \E p \in Peers : \E k \in 1..Len(Batches) : \E fw \in FaultKinds \ ReadFaultKinds : Headers(p, Batches[k], fw)
   \/ \E p \in Peers : \E k \in 1..Len(Batches) : \E cb \in 0..4 : HeadersCrash(p, Batches[k], cb)
-  \/ \E k \in 1..MaxCF : WriteCF(k)
+  \/ \E k \in 1..MaxCF : \E rd \in {0} \cup (FaultKinds \cap ReadFaultKinds) : WriteCF(k, rd)
   \/ \E k \in 1..2 : ImportReset(k)
   \/ Restart
   \/ Recover
